@@ -133,6 +133,16 @@ class Interp:
             s = cb.RevolvedRing(a["p1"], a["p2"], cb.Face([self.pt(p) for p in a["face"]]), a.get("n", 8))
         elif k == "stack":
             s = cb.ExtrudedStack(cb.Grid(a["p1"], a["p2"], a["n1"], a["n2"]), a["amount"], a["repeats"])
+        elif k == "tstack":
+            base = cb.Grid(a["p1"], a["p2"], a["n1"], a["n2"])
+            if a.get("lift"):
+                base.translate([0, 0, a["lift"]])
+            tfs = []
+            if a.get("scale"):
+                tfs.append(cb.Scaling(a["scale"], a.get("origin", [0, 0, 0])))
+            if a.get("shift"):
+                tfs.append(cb.Translation(a["shift"]))
+            s = cb.TransformedStack(base, tfs, a["repeats"])
         elif k == "tjoint":
             s = cb.TJoint(a["start"], a["center"], a["r"])
         elif k == "ljoint":
@@ -189,6 +199,10 @@ class Interp:
 
     def op_patch(self, op) -> None:
         self.env[op["target"]].set_patch(op["side"], op["name"])
+
+    def op_stack_chop(self, op) -> None:
+        """Stack.chop: one chop along the stack for every tier"""
+        self.env[op["target"]].chop(**op["args"])
 
     def op_sub_chop(self, op) -> None:
         """chop one operation of a multi-operation entity"""
